@@ -457,18 +457,9 @@ macro_rules | `(tactic| fault_step) => `(tactic| with_reducible exact streamCent
 is tolerated anywhere. -/
 theorem streamVisit_tight (ext : Ext) : Tight (streamVisit ext) := by unfold streamVisit; fault
 
-theorem streamEntryC_tight (ext : Ext) (k : Nat) : Tight (streamEntryC ext k) := by
-  unfold streamEntryC; fault
-macro_rules | `(tactic| fault_step) => `(tactic| with_reducible exact streamEntryC_tight _ _)
-
-/-- … also under any per-entry consumption pattern (partial reads, then drop). -/
-theorem streamEntriesC_tight (ext : Ext) (pattern : List Nat) (fuel : Nat) :
-    ∀ i, Tight (streamEntriesC ext pattern fuel i) := by
-  induction fuel with
-  | zero => intro i; unfold streamEntriesC; fault
-  | succ n ih =>
-    intro i
-    have := ih (i + 1)
-    unfold streamEntriesC; fault
+-- c11: restate.  `streamEntryC` / `streamEntriesC` (partial consumption, then `ZipFile::drop`) are no longer
+-- `Tight`: the drain of `ZipFile::drop` (`Model.drain`) swallows a read error, as the code does
+-- (`Err(_) => break`), so a fault that fires inside the drain is NOT returned as that error.  The former lemmas
+-- `streamEntryC_tight` / `streamEntriesC_tight` stated the opposite about a model without the drain.
 
 end ZipVerif.Model
